@@ -1246,7 +1246,7 @@ class Interp:
                 return any(x.v == item.v for x in fl)
             if fl is not None and isinstance(item, Num) and item.p.is_const() and all(isinstance(x, Num) and x.p.is_const() for x in fl):
                 return any(x.p == item.p for x in fl)
-        if isinstance(cont, DictV) and isinstance(item, Const) and not cont.stores:
+        if isinstance(cont, DictV) and isinstance(item, Const) and self.transfer.dict_stores_exact(cont):
             return item.v in cont.d
         return None
 
